@@ -141,6 +141,18 @@ Section O13.
     | _ => true
     end.
 
+  (* "touches nothing else": a file that exists on both sides with different content is, after a call that
+     returned, the source file if the strategy — evaluated here from the recorded mtimes: update = source strictly
+     newer — says overwrite, and otherwise exactly what it was (reachable, non-excluded files of the synchronised
+     jobs; "different" in the sense of the comparison the call was asked to use) *)
+  Definition differing_as_strategy (i : sinput) (o : sobs) : bool :=
+    forallb (fun pr => match snd pr, job_dir (fst (fst pr)) (p_ws (ob_dst o)) with
+                       | Some dd, Some dd' =>
+                           forallb (conflict_ok frepr i o dd') (conflicts frepr (o_deep (i_opts i)) i (snd (fst pr)) dd)
+                       | Some _, None => false
+                       | None, _ => true
+                       end) (pairs i).
+
   Definition idempotent (c : scase) : bool :=
     match c_again c with
     | Some o2 =>
@@ -158,7 +170,7 @@ Section O13.
     && proj_eqb frepr (i_src i) (ob_src o)                        (* the source is byte-identical *)
     && schema_ok i o
     && (if wants_again i o                                        (* a real run that returned *)
-        then superset i o && dst_only i o && nothing_else i o && idempotent c
+        then superset i o && dst_only i o && nothing_else i o && differing_as_strategy i o && idempotent c
         else true).
 End O13.
 
